@@ -151,7 +151,7 @@ pub fn check(c: &Case, st: &mut Stats) -> Check {
 pub fn run(ctx: &Ctx) -> Report {
     let mut rep = Report::new(ID, "exploration", ctx);
     rep.rule = "Generated: typed traces in the statement's domain (throwable class without whitespace, optional non-empty trimmed single-line message from a pool containing ': ', 'Caused by: x', 'at a.b(c:1)', 'x)', non-ASCII; frames with class, dot-free method, present colon-free file incl. '', 'a(b)', '<unknown>', 'Native Method'; any line number incl. 2^32 and 2^64-1; 0..20 frames; cause chain depth 0..4 where causes carry a throwable; top-level throwable present or absent but never an empty top level), plus single frames (bare, 4-space and tab indented) and throwables. Oracle: try_parse(print(T)) == Some(T), print(parse(print(T))) == print(T), and the library's Display equals the documented format. evaluations = round trips. Non-trivial = distinct traces with >=1 frame and (a cause or a message containing a delimiter).".into();
-    rep.run_stage("roundtrip", case, ctx.cases(500_000, 8_000_000), check);
+    rep.run_stage("roundtrip", case, ctx.cases(500_000, 24_000_000), check);
     rep
 }
 
